@@ -119,6 +119,14 @@ class HsWorld:
             hdr = C.PacketHeader.create(True, int(self.w.vt.time()), C.PacketType.SERVER_HELLO, C.SeqNum(self.nextseq()), C.SeqNum(1), 0)
             pkt = C.Packet.create(hdr, [C.PendingMessage(C.SeqNum(self.nextseq()), C.PacketType.SERVER_HELLO, data, None, C.RetryMode.NONE)])
             return pkt.to_bytes(None)
+        if m["t"] == "bundle":
+            # CLIENT_HELLO-typed header, two inner messages: a challenge response (token 0 or arbitrary) and a keep-alive; valid CRC, no key
+            msg = C.HandshakeClientChallengeResponseMessage()
+            msg.token = 0 if m["token"] == "zero" else self.ta
+            hdr = C.PacketHeader.create(False, int(self.w.vt.time()), C.PacketType.CLIENT_HELLO, C.SeqNum(self.nextseq()), C.SeqNum(0), 0)
+            pkt = C.Packet.create(hdr, [C.PendingMessage(C.SeqNum(self.nextseq()), C.PacketType.CHALLENGE_RESP, msg.dumpb(), None, C.RetryMode.NONE),
+                                        C.PendingMessage(C.SeqNum(self.nextseq()), C.PacketType.KEEP_ALIVE, b"", None, C.RetryMode.NONE)])
+            return pkt.to_bytes(None)
         if m["t"] == "cr":
             pair = set(m["key"]["pair"])
             if "c" in pair and "a" not in pair:
@@ -167,7 +175,7 @@ class HsWorld:
                 self.to_server(m, "ca")
             else:
                 self.to_client(m)
-        elif act in ("replay-to-server", "atk-hello", "atk-challenge"):
+        elif act in ("replay-to-server", "atk-hello", "atk-challenge", "atk-bundle"):
             self.to_server(m, op["src"])
         else:
             self.to_client(m)
